@@ -20,7 +20,7 @@
     [crun sched]: ids handed out when the threads listed in [sched] perform their atomic
     [fetch_add] steps in that order. *)
 From stdpp Require Import gmap.
-From TT Require Import Tunnel.ReceiverAbs Tunnel.Sender Tunnel.SenderProofs.
+From TT Require Import Tunnel.ReceiverAbs Tunnel.Sender Tunnel.SenderProofs Judge.C12 Judge.C12Proofs.
 
 (** ** exactly one event per subscriber call, in order *)
 Theorem C12_one_event_per_call : forall start mid p,
@@ -165,6 +165,41 @@ Example C12_example_explicit_parent :
          EFollowsFrom 2 2; ESpanDropped 2 ]
   /\ Forall (fun o => o = Accepted) (fst (arun a_init (sender_run N.of_nat ex_explicit_parent))).
 Proof. vm_compute. repeat split; repeat constructor. Qed.
+
+(** Link to the check: the judge's executable statement ([sender_ok]: one event per call, call
+    sites announced before use, ids non-zero / fresh / used only while alive, stream accepted by the
+    abstract receiver, events faithful to the operations) is a consequence of the theorems - for the
+    model's own output from every counter start, and for ANY observation the correspondence accepts
+    (given the three conjuncts about the position of announcements and foreign traffic, which the
+    correspondence does not determine and each of which is shown to be needed).  Inside the known
+    class the verdict is [Agree] or [KnownF 1], never [PropFail]. *)
+Theorem C12_judge_agrees_on_model : forall start p,
+  sender_hyp start p = true -> prog_wraps start p = false ->
+  judge_sender start p (model_sobs start p) = Agree.
+Proof. exact judge_sender_model. Qed.
+
+Theorem C12_judge_ok_whenever_corr : forall start p o,
+  sender_hyp start p = true -> prog_wraps start p = false ->
+  sender_corr start p o = true ->
+  zip_all (call_event_match (p_sites p)) (so_calls o) (so_events o) = true ->
+  (so_foreign_calls o =? so_foreign_events o) = true ->
+  announced_b (p_sites p) [] (so_events o) = true ->
+  sender_ok p o = true.
+Proof. exact sender_ok_of_corr. Qed.
+
+Theorem C12_judge_known_class_never_propfail : forall start p o,
+  sender_hyp start p = true -> prog_wraps start p = true -> sender_corr start p o = true ->
+  judge_sender start p o = Agree \/ judge_sender start p o = KnownF 1.
+Proof. exact judge_sender_corr_known. Qed.
+
+(** concurrent allocation: the id conjuncts of the concurrent judge follow from the interleaving
+    theorem whenever the correspondence holds *)
+Theorem C12_conc_judge_ids_whenever_corr : forall start counts sched o,
+  conc_hyp start counts sched = true -> conc_corr start counts sched o = true ->
+  nodup_N (List.concat (co_ids o)) = true
+  /\ forallb (fun id => negb (id =? 0)) (List.concat (co_ids o)) = true
+  /\ list_eqb Nat.eqb (map (@List.length N) (co_ids o)) counts = true.
+Proof. exact conc_ids_ok. Qed.
 
 Example C12_example_schedule :
   crun [0; 1; 0; 2; 1]%nat = [(0%nat, 1); (1%nat, 2); (0%nat, 3); (2%nat, 4); (1%nat, 5)]
